@@ -20,10 +20,16 @@ AKAI_RATES = [44100, 22050, 32000, 48000]
 ROLAND_FREQS = [1, 3, 2, 0]
 
 
-def akai_image(names, lens, rates="same"):
+def akai_image(names, lens, rates="same", hdr=None):
     files = []
     for i, (nm, n) in enumerate(zip(names, lens)):
         files.append({"name": nm, "n": n, "chain": [4 + i], "seq": i + 1, "rate": AKAI_RATES[i % 4] if rates == "diff" else 44100})
+        # the name stored INSIDE the sample header is not the sibling name (file renamed / copied on the sampler): the
+        # directory names decide
+        if hdr == "rot":
+            files[-1]["hdr"] = {"sname": names[(i + 1) % len(names)].strip() or "X"}
+        elif hdr == "lr":
+            files[-1]["hdr"] = {"sname": "DRUM " + "LR"[i % 2]}
     spec = {"parts": [{"vols": [{"name": "VOL", "dir": [3], "files": files}]}]}
     model = A.model_from_spec(spec)
     img, _ = A.build_akai(model)
@@ -116,7 +122,7 @@ def run_case(case):
         lens = [10 + (k % 3) for k in range(len(names))]
         lens[case["big"][1]] = lens[case["big"][2]] = 12
     if case["fmt"] == "akai":
-        img, pcms, prefix = akai_image(names, lens, case.get("rates", "same"))
+        img, pcms, prefix = akai_image(names, lens, case.get("rates", "same"), case.get("hdr"))
     else:
         img, pcms, prefix = roland_image(names, lens, case.get("rates", "same"))
     res = tree.full_run(img, cpu_s=30.0, ls_paths=(), again=len(names) <= 2 or "big" in case)
@@ -134,7 +140,8 @@ class Check(CheckBase):
             "volume, 14 names, k<=3 (quick) / k<=4 (thorough), plus all 4-tuples over the reduced 6-name alphabet; Roland "
             "performance, 11 names (incl. lower-case 'l' / 'r' endings, which are not L/R forms), k<=2 (quick) / k<=3 (thorough); equal lengths (10 frames), and unequal lengths, differing sample "
             "rates, single-frame samples and samples of 2049 frames (one more than the transcoder block) for k<=2 (quick) / "
-            "all (thorough); large directories: 201 AKAI siblings (70 Roland) with an L/R pair at every pair of adjacent positions "
+            "all (thorough); AKAI header names that differ from the directory names (rotated among the siblings / 'DRUM L', 'DRUM R') "
+            "for k<=2 over 14 names and k=3 over 6; large directories: 201 AKAI siblings (70 Roland) with an L/R pair at every pair of adjacent positions "
             "and at far-apart positions. Oracle: every sample's position-coded PCM in exactly one channel of exactly one file; channel sum = "
             "sample count; unambiguous P+'L'/P+'R' pairs (P ending in blank/hyphen, exactly one of each) in one 2-channel file, "
             "L in channel 0, all frames when equal length, named after the stem when the stem is safe and unclaimed; others "
@@ -153,6 +160,10 @@ class Check(CheckBase):
                     cases.append({"fmt": "akai", "names": list(t), "lens": "eq", "rates": "diff"})
                     cases.append({"fmt": "akai", "names": list(t), "lens": "one"})
                     cases.append({"fmt": "akai", "names": list(t), "lens": "block1"})
+        for k in (1, 2, 3):
+            for t in itertools.product(AKAI_NAMES if k < 3 else AKAI_N4, repeat=k):
+                for hdr in ("rot", "lr"):
+                    cases.append({"fmt": "akai", "names": list(t), "lens": "eq", "hdr": hdr})
         if self.quick:
             for t in itertools.product(AKAI_N4, repeat=4):
                 cases.append({"fmt": "akai", "names": list(t), "lens": "eq"})
